@@ -14,7 +14,7 @@ theorem every_operation_is_a_request (env : Env) (n : Nat) (op : Op) (e : Expr) 
   have hrel : CacheRel (fun a b : St => ∃ l, b.events = l ++ a.events) :=
     { refl := fun _ => ⟨[], rfl⟩
       trans := fun ⟨l1, h1⟩ ⟨l2, h2⟩ => ⟨l2 ++ l1, by rw [h2, h1, List.append_assoc]⟩
-      emit := fun _ ev => ⟨[ev], rfl⟩
+      emit := fun _ ev _ => ⟨[ev], rfl⟩
       setCache := fun s c es => ⟨[], by unfold St.setCacheEntries; split <;> rfl⟩
       setScripts := fun _ _ => ⟨[], rfl⟩ }
   unfold ev at h
@@ -22,8 +22,9 @@ theorem every_operation_is_a_request (env : Env) (n : Nat) (op : Op) (e : Expr) 
   have key : ∀ (m : M V), Spec (fun a b : St => ∃ l, b.events = l ++ a.events) (fun _ => True) m →
       m { s with events := Event.req op.name e.id :: s.events } = some (r, s') →
       ∃ rest, s'.events = rest ++ (Event.req op.name e.id :: s.events) := fun m hm hrun => (hm.run _ _ _ hrun).1
-  have hn := pres_nodeOp hrel.toStRel truePred (spec_ev hrel truePred env n) env n
-    (fun x c op o => pres_cachedOp hrel truePred (spec_ev hrel truePred env n) env x c op o) op e o
+  have hlog : LogOk env (fun a b : St => ∃ l, b.events = l ++ a.events) := Or.inr fun _ m b => ⟨[Event.log m b], rfl⟩
+  have hn := pres_nodeOp hrel.toStRel truePred (spec_ev hrel truePred env hlog n) env hlog n
+    (fun x c op o => pres_cachedOp hrel truePred (spec_ev hrel truePred env hlog n) env x c op o) op e o
   cases op <;> simp only [] at h
   · cases hs : env.subst with
     | none =>
@@ -45,10 +46,10 @@ theorem request_log_monotone (env : Env) (n : Nat) (op : Op) (e : Expr) (o : V) 
   have hrel : CacheRel (fun a b : St => ∃ l, b.events = l ++ a.events) :=
     { refl := fun _ => ⟨[], rfl⟩
       trans := fun ⟨l1, h1⟩ ⟨l2, h2⟩ => ⟨l2 ++ l1, by rw [h2, h1, List.append_assoc]⟩
-      emit := fun _ ev => ⟨[ev], rfl⟩
+      emit := fun _ ev _ => ⟨[ev], rfl⟩
       setCache := fun s c es => ⟨[], by unfold St.setCacheEntries; split <;> rfl⟩
       setScripts := fun _ _ => ⟨[], rfl⟩ }
-  exact ((spec_ev hrel truePred env n op e o).run s r s' h).1
+  exact ((spec_ev hrel truePred env (Or.inr fun _ m b => ⟨[Event.log m b], rfl⟩) n op e o).run s r s' h).1
 
 /-- **substitute_honoured.** A handler that answers `EvaluateRequest` for node `sid` with `v` makes EVERY
     evaluation of that node — at whatever depth it is reached, under whatever options — yield `v` without
